@@ -441,6 +441,9 @@ type Result struct {
 	Complete bool
 }
 
+var w0cache *worker
+var pool []*worker // subtree workers kept across Explore calls
+
 // Explore runs harness h exhaustively up to its bound on nproc worker processes.
 func Explore(h *Harness, nproc int, deadline time.Time) (*Result, error) {
 	if nproc <= 0 {
@@ -449,11 +452,23 @@ func Explore(h *Harness, nproc int, deadline time.Time) (*Result, error) {
 	t0 := time.Now()
 	total := newStats()
 	// determinism check of the default schedule: same trace hash twice
-	w0, err := startWorker()
-	if err != nil {
-		return nil, err
+	// the expansion worker is kept across Explore calls (many harnesses are one schedule long)
+	w0 := w0cache
+	w0cache = nil
+	if w0 == nil {
+		var err error
+		if w0, err = startWorker(); err != nil {
+			return nil, err
+		}
 	}
-	defer w0.stop()
+	keep := false
+	defer func() {
+		if keep && w0.n < 200000 {
+			w0cache = w0
+		} else {
+			w0.stop()
+		}
+	}()
 	r1, err := w0.call(req{Harness: h.Name, Mode: "expand", Bound: h.Bound, Arg: h.Arg})
 	if err != nil {
 		return nil, err
@@ -484,7 +499,8 @@ func Explore(h *Harness, nproc int, deadline time.Time) (*Result, error) {
 		}
 		queue = append(queue, r.Children...)
 	}
-	w0.stop()
+	w0.n += int(total.Execs)
+	keep = true
 	var mu sync.Mutex
 	var wg sync.WaitGroup
 	var firstErr error
@@ -498,19 +514,39 @@ func Explore(h *Harness, nproc int, deadline time.Time) (*Result, error) {
 	}
 	for i := 0; i < nproc; i++ {
 		wg.Add(1)
-		go func() {
+		go func(slot int) {
 			defer wg.Done()
-			w, err := startWorker()
-			if err != nil {
-				mu.Lock()
-				firstErr = err
-				mu.Unlock()
-				return
+			// workers are kept across Explore calls (fault enumeration makes thousands of small calls)
+			mu.Lock()
+			for len(pool) <= slot {
+				pool = append(pool, nil)
 			}
-			defer func() { w.stop() }()
+			w := pool[slot]
+			pool[slot] = nil
+			mu.Unlock()
+			if w == nil {
+				var err error
+				if w, err = startWorker(); err != nil {
+					mu.Lock()
+					firstErr = err
+					mu.Unlock()
+					return
+				}
+			}
+			ok := false
+			defer func() {
+				if ok && w.n <= 200000 {
+					mu.Lock()
+					pool[slot] = w
+					mu.Unlock()
+				} else {
+					w.stop()
+				}
+			}()
 			for {
 				mu.Lock()
 				if next >= len(queue) || firstErr != nil {
+					ok = firstErr == nil
 					mu.Unlock()
 					return
 				}
@@ -537,7 +573,7 @@ func Explore(h *Harness, nproc int, deadline time.Time) (*Result, error) {
 					}
 				}
 			}
-		}()
+		}(i)
 	}
 	wg.Wait()
 	if firstErr != nil {
